@@ -20,7 +20,7 @@ var intrinsicNames = map[string]bool{
 	"zzIteInt": true, "zzIteInt64": true, "zzIteByte": true, "zzIteBool": true, "zzIteUint16": true, "zzIteStr": true,
 	"zzParam": true, "zzSymbolic": true, "zzDecStr": true, "zzWriteLocked": true, "zzLockDepth": true,
 	"zzLog": true, "zzFail": true, "zzConcretize": true, "zzConcStr": true, "zzGoroutines": true,
-	"zzIsConst": true, "zzStrEq": true, "zzDigest": true,
+	"zzIsConst": true, "zzStrEq": true, "zzDigest": true, "zzSettleMs": true,
 }
 
 func (p *Path) isIntrinsic(fn *ssa.Function) bool { return p.eng.meta(fn).intrinsic }
@@ -98,7 +98,7 @@ func (p *Path) intrinsic(g *G, fr *Frame, fn *ssa.Function, args []Value) (Value
 	case "zzReach":
 		p.reached[p.concStr(args[0], "reach tag")] = true
 		return nil, stNext
-	case "zzSettle":
+	case "zzSettle", "zzSettleMs":
 		if g.id != 0 {
 			p.internal("zzSettle outside the main goroutine")
 		}
